@@ -16,7 +16,7 @@ import (
 // e1EdgeExceptions: reviewed call edges whose reported write cannot happen, one reason each.
 var e1EdgeExceptions = map[string]string{
 	"(*canvas/renderers/pdf.PDF).RenderPath -> (*canvas/renderers/pdf.pdfPageWriter).SetDashes|param 2 level 0": "SetDashes appends to the array it is given; RenderPath reaches it only on the native-stroke branches, which require !strokeUnsupported, and on that path style.Dashes was just replaced by the fresh array returned by canvas.ScaleDash (rule E6.dash-scale requires that call)",
-	"(*canvas.Path).Dash -> (*canvas.Path).Join|param 0 level 1": "Dash calls pd[len(pd)-1].Join(qd); SplitAt returns its receiver (memory shared with p) only when the cut list is empty, and then pd has one element, the qd loop body never ran, qd is empty and Join returns p before any write; for a non-empty cut list every element of pd is freshly built",
+	"(*canvas.Path).Dash -> (*canvas.Path).Join|param 0 level 1":                                                "Dash calls pd[len(pd)-1].Join(qd); SplitAt returns its receiver (memory shared with p) only when the cut list is empty, and then pd has one element, the qd loop body never ran, qd is empty and Join returns p before any write; for a non-empty cut list every element of pd is freshly built",
 }
 
 func newEffects(c *core.Ctx, r *core.Report) *analyzer {
